@@ -4,7 +4,7 @@
    History.v (disable/enable histories). *)
 From Coq Require Import List NArith Arith.
 Import ListNotations.
-Require Import Base.Wire Base.PyStr C14.Model C14.Lemmas C14.Dispatch C14.Trace C14.Witness C14.History.
+Require Import Base.Wire Base.PyStr C14.Model C14.Lemmas C14.Dispatch C14.Trace C14.Witness C14.History C14.Restart.
 From Coq Require Import Sorting.Sorted.
 
 (* Full statement: for every dispatch/behaviour function [final], configuration and command tree, the proxy
@@ -240,3 +240,22 @@ Theorem C14_restart_entry_all :
   forall c c' p', simple c = true -> entry_disables (conf_key None c) c' p' = seq_eqb (canon c') (canon c).
 Proof. exact restart_entry_all. Qed.
 Print Assumptions C14_restart_entry_all.
+
+(* A restart preserves the answers.  For every history -- from nothing disabled, or from any start-up list -- of
+   `disable [plugin] cmd` / `enable [plugin] cmd` through Owner, run-time settings of supybot.commands.disabled (repair
+   C14.F28: the registry callback rebuilds the table from the new value) and restarts, with names made of characters
+   canonicalName keeps and without '.': the table DisabledCommands.__init__ rebuilds from the registry list answers
+   disabled(c, p) exactly as the live table does, for every command and plugin name asked. *)
+Theorem C14_restart_preserves :
+  forall has_cmd hs c p, Forall hop_ok hs ->
+  let st := hrun has_cmd (OState dis_empty []) hs in
+  dis_disabled (o_d (restart st)) c p = dis_disabled (o_d st) c p.
+Proof. exact restart_preserves. Qed.
+Print Assumptions C14_restart_preserves.
+
+Theorem C14_restart_preserves_from :
+  forall conf has_cmd hs c p, Forall keyform conf -> Forall hop_ok hs ->
+  let st := hrun has_cmd (OState (dis_of_conf conf) conf) hs in
+  dis_disabled (o_d (restart st)) c p = dis_disabled (o_d st) c p.
+Proof. exact restart_preserves_from. Qed.
+Print Assumptions C14_restart_preserves_from.
